@@ -45,16 +45,23 @@ def _by_m(l):
     return [f"s{m}" for m in range(l, 0, -1)] + ["c0"] + [f"c{m}" for m in range(1, l + 1)]
 
 
+def _gaussian_high(l):
+    """Gaussian's order of Cartesian functions for g and higher shells (formatted checkpoint files; the Multiwfn manual
+    states the same for .mwfn): ZZZZ YZZZ YYZZ YYYZ YYYY XZZZ XYZZ ... XXXX, i.e. the power of x ascending, then of y."""
+    return ["x" * nx + "y" * ny + "z" * (l - nx - ny) for nx in range(0, l + 1) for ny in range(0, l - nx + 1)]
+
+
 DOCUMENTED = {
     # HORTON 2 documentation ("Gaussian basis sets"): Cartesian functions in alphabetical order, pure functions c0, c1, s1, c2, s2, ...
-    "HORTON2": {(0, "c"): ["1"], **{(l, "c"): _alphabetical(l) for l in range(1, 10)}, **{(l, "p"): _pure(l) for l in range(2, 10)}},
+    "HORTON2": {(0, "c"): ["1"], **{(l, "c"): _alphabetical(l) for l in range(1, 25)}, **{(l, "p"): _pure(l) for l in range(2, 25)}},
     # Kenny et al., J. Comput. Chem. 29, 562 (2008), appendix B, made precise by the LibInt wiki: Cartesian functions in
     # lexicographic (alphabetical) order, solid harmonics by increasing m
-    "CCA": {(0, "c"): ["1"], **{(l, "c"): _alphabetical(l) for l in range(1, 10)}, **{(l, "p"): _by_m(l) for l in range(2, 10)}},
+    "CCA": {(0, "c"): ["1"], **{(l, "c"): _alphabetical(l) for l in range(1, 25)}, **{(l, "p"): _by_m(l) for l in range(2, 25)}},
     # Multiwfn manual, section 2.5: same order as Gaussian for s, p, d (Cartesian and spherical)
-    "mwfn": {(0, "c"): ["1"], (1, "c"): ["x", "y", "z"], (2, "c"): _GAUSS_D, (2, "p"): _pure(2)},
+    "mwfn": {(0, "c"): ["1"], (1, "c"): ["x", "y", "z"], (2, "c"): _GAUSS_D, (3, "c"): _GAUSS_F, (4, "c"): _gaussian_high(4),
+             (5, "c"): _gaussian_high(5), (2, "p"): _pure(2), (3, "p"): _pure(3), (4, "p"): _pure(4)},
     "fchk": {(0, "c"): ["1"], (1, "c"): ["x", "y", "z"], (2, "c"): _GAUSS_D, (3, "c"): _GAUSS_F,
-             **{(l, "p"): _pure(l) for l in range(2, 8)}},
+             **{(l, "c"): _gaussian_high(l) for l in range(4, 10)}, **{(l, "p"): _pure(l) for l in range(2, 10)}},
     "molden": {(0, "c"): ["1"], (1, "c"): ["x", "y", "z"], (2, "c"): _GAUSS_D, (3, "c"): _GAUSS_F,
                (4, "c"): _MOLDEN_G, (2, "p"): _pure(2), (3, "p"): _pure(3), (4, "p"): _pure(4)},
     "wfn": {(0, "c"): ["1"], (1, "c"): ["x", "y", "z"], (2, "c"): _GAUSS_D, (3, "c"): _WFN_F,
@@ -62,3 +69,6 @@ DOCUMENTED = {
     "wfx": {(0, "c"): ["1"], (1, "c"): ["x", "y", "z"], (2, "c"): _GAUSS_D, (3, "c"): _WFN_F,
             (4, "c"): _WFN_G, (5, "c"): _WFN_H},
 }
+
+# Molekel files (as written by ORCA's orca_2mkl) use the Molden order of functions
+DOCUMENTED["molekel"] = dict(DOCUMENTED["molden"])
